@@ -422,10 +422,12 @@ class Ctx:
         # runs against a scratch tree (VERIF_REPO set: seeded-change trials) must not overwrite the evidence of /repo
         evdir = os.path.join(VERIF, "evidence") if REPO == "/repo" else os.path.join(VERIF, "replays", "scratch-evidence")
         os.makedirs(evdir, exist_ok=True)
-        os.makedirs(os.path.join(VERIF, "replays"), exist_ok=True)
+        # (replays of runs against a scratch tree go to their own directory too: they must not overwrite those of /repo)
+        rdir = "replays" if REPO == "/repo" else os.path.join("replays", "scratch")
+        os.makedirs(os.path.join(VERIF, rdir), exist_ok=True)
         violations = []
         for n, (sig, oracle, args, obs, req, text) in enumerate(self.oracle_failures):
-            path = os.path.join("replays", "%s-%d-%d.json" % (pid, self.seed, n))
+            path = os.path.join(rdir, "%s-%d-%d.json" % (pid, self.seed, n))
             with open(os.path.join(VERIF, path), "w") as f:
                 json.dump({"property": pid, "kind": "failing-input", "signature": sig, "oracle": oracle,
                            "args": args, "observed": obs, "required": req, "text": text,
@@ -434,7 +436,7 @@ class Ctx:
             if n >= 4:
                 break
         if not self.oracle_failures and (self.proof["broken"] or self.corr_mismatches):
-            path = os.path.join("replays", "%s-%d-unproved.json" % (pid, self.seed))
+            path = os.path.join(rdir, "%s-%d-unproved.json" % (pid, self.seed))
             with open(os.path.join(VERIF, path), "w") as f:
                 json.dump({"property": pid, "kind": "no-failing-input-found",
                            "broken_proof_obligations": self.proof["broken"],
